@@ -326,7 +326,7 @@ func main() {
 	maxExec := int64(6000)
 	if run.Thorough() {
 		dbound, pbound = 3, 1
-		maxExec = 20000
+		maxExec = 12000
 	}
 	if run.Replay != "" {
 		b, _ := os.ReadFile(run.Replay)
@@ -404,7 +404,7 @@ func main() {
 	if bin := os.Getenv("VERIF_RACE_BIN"); bin != "" {
 		rbound, rmax := 1, int64(150)
 		if run.Thorough() {
-			rbound, rmax = 2, 2000
+			rbound, rmax = 2, 1000
 		}
 		rres, stderr := vx.ShardedBin(bin, "race", len(defs), func(i int) vx.ItemResult {
 			r := vx.ExploreItem(build(defs[i]), rbound, vx.Config{MaxExec: rmax, Delay: true, Horizon: 50000})
